@@ -96,12 +96,18 @@ for line in sys.stdin:
             resp = {"ok": [a.get_header(), pk.OligoComputer(k).get_header()]}
         elif req["op"] == "temporaries":
             # strings that live only for the constructor call (equal length, different content), one after the other
-            out = []
-            for h in req["seqs"]:
-                ks = [list(t) for t in pk.KmerGenerator(bytes.fromhex(h).decode("utf-8"), k)]
-                ms = [list(t) for t in pk.MinimiserGenerator(bytes.fromhex(h).decode("utf-8"), req["w"], req["m"])]
-                out.append([ks, ms])
-            resp = {"ok": out}
+            # the bytes exist beforehand; each str exists only during its constructor call, and the next one (same
+            # length) is allocated right after the previous one was freed: the allocator hands out the same block
+            bs = [bytes.fromhex(h) for h in req["seqs"]]
+            ks, ms = [], []
+            for b in bs:
+                ks.append([list(t) for t in pk.KmerGenerator(b.decode("utf-8"), k)])
+            for b in bs:
+                ms.append([list(t) for t in pk.MinimiserGenerator(b.decode("utf-8"), req["w"], req["m"])])
+            # once more without keeping the items (no allocations between two constructor calls)
+            counts = [sum(1 for _ in pk.KmerGenerator(b.decode("utf-8"), k)) for b in bs]
+            mcounts = [sum(1 for _ in pk.MinimiserGenerator(b.decode("utf-8"), req["w"], req["m"])) for b in bs]
+            resp = {"ok": [[ks[i], ms[i], counts[i], mcounts[i]] for i in range(len(bs))]}
         elif req["op"] == "acgt":
             resp = {"ok": [pk.KmerGenerator("", k).to_acgt(req["x"]), pk.MinimiserGenerator("", k, k).to_acgt(req["x"])]}
         elif req["op"] == "cgr":
